@@ -296,7 +296,10 @@ def run(tier):
         st = hist['stats']
         missing = [a for a in ('Push', 'Retry', 'CacheClear', 'Rollover', 'Query') if not st['steps'].get(a)]
         missing += ['push:' + s for s in ALL_SIGNALS if not st['pushes_by_signal'].get(s)]
-        missing += ['answers:' + e for e in ENDPOINTS if not (st['nonempty_answers_by_endpoint'].get(e) or rec['stats']['nonempty_answers_by_endpoint'].get(e))]
+        # (an endpoint that never answers anything is vacuity only if nothing was reported about it: a defect can silence it)
+        reported = ' '.join(v['signature'] for v in viols)
+        missing += ['answers:' + e for e in ENDPOINTS if not (st['nonempty_answers_by_endpoint'].get(e) or rec['stats']['nonempty_answers_by_endpoint'].get(e))
+                    and e not in reported and 'unexplained|' not in reported]
         for k in ('pushes_with_failed_insert', 'answers_compared', 'acked_items_checked'):
             if not st.get(k):
                 missing.append(k)
